@@ -64,6 +64,12 @@ def rule_kmh(ctx):
     if not (loads and stores and ups):
         raise AnalysisError('undecidable shape: load/store/upstream lookup not all found in CacheDataset.__getitem__')
     has_add, has_raise, test = _neg_norm(fn, arm['body'], item)
+    from .c02 import own_length
+    wrong = own_length(cls, fn, _neg_norm.len_args) if has_add else None
+    if wrong is not None:
+        rep.ob('K', K.key(cls, '__getitem__', 'cache-key-normalised-against-the-dataset-length'), False, wrong,
+               'negative indices are normalised against len(%s) - not the length of the dataset: with a partly filled '
+               'cache ds[-1] is looked up (and stored) under the position of another example' % A.short(wrong, 40))
     ok = has_add and has_raise and test is not None and test.lineno < min(l.lineno for l in loads)
     rep.ob('K', K.key(cls, '__getitem__', 'cache-key-unnormalised(int)'), ok, loads[0],
            '' if ok else 'the integer index is used as cache key without normalising negatives against len(self): '
@@ -108,11 +114,24 @@ def rule_kmh(ctx):
             gated = True
     rep.ob('G', K.key(cls, '__getitem__', 'store-gated-by-check()'), gated, st,
            '' if gated else 'the store must be control dependent on self.check() (memory / disk guard)')
-    # iteration and slices go through __getitem__
+    rule_h_iter(ctx)
+
+
+def rule_h_iter(ctx):
+    """iteration (values and items) goes through __getitem__, i.e. through the cached, isolating lookup"""
+    rep = ctx.report
+    cls = ctx.repo.cls('core.CacheDataset')
+    if cls.own('__iter__') is None:
+        raise AnalysisError('anchor vanished: CacheDataset.__iter__')
     it = cls.own('__iter__').node
     ys = [y for y in A.yields_in(it)]
+    direct = [x for x in ast.walk(it) if (isinstance(x, ast.Subscript) and A.is_self_attr(x.value, INPUT_ATTR))
+              or (isinstance(x, (ast.For, ast.comprehension)) and any(A.is_self_attr(z, INPUT_ATTR) for z in ast.walk(x.iter))
+                  and not any(isinstance(z, ast.Call) and isinstance(z.func, ast.Attribute) and z.func.attr == 'keys'
+                              for z in ast.walk(x.iter)))
+              or (isinstance(x, ast.YieldFrom) and any(A.is_self_attr(z, INPUT_ATTR) for z in ast.walk(x.value)))]
     ok = bool(ys) and all(any(isinstance(x, ast.Subscript) and A.is_name(x.value, 'self') for x in ast.walk(y)) for y in ys) \
-        and not any(A.is_self_attr(x, INPUT_ATTR) for x in ast.walk(it))
+        and not direct
     rep.ob('H', K.key(cls, '__iter__', 'iteration-goes-through-the-cached-lookup'), ok, it,
            '' if ok else 'iteration must yield self[i] (the cached lookup), not read the upstream directly')
     loops = [l for l in A.walk_local(it) if isinstance(l, ast.For)]
